@@ -212,10 +212,18 @@ func (fr *Frame) selectStmt(i *ssa.Select) Value {
 	var evs []*CEvent
 	var vals []Value
 	for _, st := range i.States {
-		if st.Dir != types.RecvOnly {
-			panic(unsupported("select with a send case"))
-		}
 		ch := fr.eval(st.Chan).(*VChan)
+		if st.Dir == types.SendOnly {
+			// a send case: an ordinary send event that belongs to the select group (at most one case of the
+			// group fires; the group is blocked while none has fired)
+			e := ex.newEvent(fr, "send", true, i)
+			e.Ch = ch
+			e.Val = fr.eval(st.Send)
+			e.Sel = grp
+			e.Ok = ts.False
+			evs = append(evs, e)
+			continue
+		}
 		elem := st.Chan.Type().Underlying().(*types.Chan).Elem()
 		e, v := ex.recvEvent(fr, ch, elem, i)
 		e.Sel = grp
@@ -412,7 +420,16 @@ func (ex *Exec) finalizeConc() {
 			closes = append(closes, e)
 		}
 	}
-	reached := func(e *CEvent) *Term { return ts.And(e.G, e.Prev) }
+	// an event is reached when its guard holds, the earlier events of its goroutine have fired and the
+	// goroutine exists at all (its go statement has fired: a spawner that blocks before the go statement
+	// leaves the child's operations unreached, not blocked)
+	reached := func(e *CEvent) *Term {
+		r := ts.And(e.G, e.Prev)
+		if e.Th.Spawn != nil {
+			r = ts.And(r, e.Th.Spawn.F)
+		}
+		return r
+	}
 	for _, e := range evs {
 		// fired only if reached; non-blocking events fire when reached
 		add(ts.Implies(e.F, reached(e)))
@@ -611,7 +628,16 @@ func (ex *Exec) finalizeConc() {
 				continue
 			}
 			// a send that is attempted (reached) on a channel closed before it completes, or while it blocks, panics
-			c.Panics = append(c.Panics, Obligation{Kind: "panic", Cond: ts.And(reached(s), k.F, same, ts.Or(ts.Not(s.F), lt(k, s))), Label: "send on closed channel", Pos: s.Pos})
+			// (a send case of a select whose group completed through another case was not attempted)
+			pending := ts.Not(s.F)
+			if s.Sel != 0 {
+				for _, o := range evs {
+					if o.Sel == s.Sel {
+						pending = ts.And(pending, ts.Not(o.F))
+					}
+				}
+			}
+			c.Panics = append(c.Panics, Obligation{Kind: "panic", Cond: ts.And(reached(s), k.F, same, ts.Or(pending, ts.And(s.F, lt(k, s)))), Label: "send on closed channel", Pos: s.Pos})
 		}
 	}
 	// ---- maximality and deadlock / leak ----
